@@ -233,7 +233,8 @@ CLAIMED.update({
 CLAIMED.update({
     'C15': dict(
         text='Lean 4 model of the discrete core of the OpenSfM converter: focal normalisation by the largest image side and its '
-             'inverse (exact rationals), camera mapping, zero-padded point keys and the importer\'s string sort, shot/camera '
+             'inverse (exact rationals; the two expressions, the accepted camera types and the k1 / k2 reads are GENERATED from '
+             'export_opensfm_camera / import_camera on every run), camera mapping, zero-padded point keys and the importer\'s string sort, shot/camera '
              'binding, feature file naming, match pair naming; 17 theorems incl. point_key_strict_mono (keys are strictly '
              'monotone in Python str order for ANY cloud size) and points_roundtrip (importPoints (exportPoints pts) = pts for '
              'every list). Tied by full export_opensfm -> import_opensfm loops on generated datasets (0..1500 points, with and '
